@@ -42,7 +42,7 @@ def model_apply(d, op):
     c = list(r)
     c[1] = op[2]
     d.add("\t".join(c))
-  elif k == "deltag":
+  elif k in ("deltag", "setnone"):
     d.del_tag(d.find_text(op[1]), op[2])
   else:
     raise refdoc.Illegal("unknown op")
